@@ -148,6 +148,8 @@ def apply_call(g, call):
         from vf.statehist import other_builder_activity
         other_builder_activity(call.get("cfg"))
         return None
+    if op == "aborted_path":
+        return aborted_path(g, call)
     args = list(call.get("args", ()))
     kw = dict(call.get("kw", {}))
     target = g
@@ -156,6 +158,40 @@ def apply_call(g, call):
     elif op.startswith("transform."):
         target, op = g.transform, op[10:]
     return getattr(target, op)(*args, **kw)
+
+
+class _Abort(Exception):
+    pass
+
+
+def aborted_path(g, call):
+    """A traced path that fails part-way: a move hook raises on segment
+    number call['after'] + 1 (a limit violation would do the same).  Whatever
+    was emitted before stays emitted; the failure itself is swallowed, and
+    the builder must go on working normally afterwards."""
+    n = {"k": 0}
+
+    def hook(origin, target, params, state):
+        n["k"] += 1
+        if n["k"] > call.get("after", 2):
+            raise _Abort()
+        return params
+    g.add_hook(hook)
+    res0 = g.state.resolution
+    try:
+        g.set_resolution(1.0)
+        if call.get("shape") == "polyline":
+            g.trace.polyline([(1.0, 0.0), (2.0, 1.0), (3.0, 0.0), (4.0, 1.0), (5.0, 0.0)])
+        elif call.get("shape") == "spline":
+            g.trace.spline([(2.0, 1.0), (4.0, -1.0), (6.0, 0.5)])
+        else:
+            g.trace.circle((3.0, 0.0))
+    except Exception:
+        pass
+    finally:
+        g.remove_hook(hook)
+        g.set_resolution(res0)
+    return None
 
 
 def finite(x):
